@@ -1,5 +1,8 @@
 //! Stubs shared by the teos harnesses (hash functions that Kani cannot execute: x86 SHA intrinsics).
 //! Contract: injective on the harness universe (= collision freeness of SHA-256d / RIPEMD160).
+#[cfg(not(kani))]
+#[allow(unused_imports)]
+use crate::verif_kani_shim as kani;
 use bitcoin::block::{Header, Version};
 use bitcoin::hashes::Hash;
 use bitcoin::{BlockHash, CompactTarget, Transaction, TxMerkleNode, Txid};
